@@ -11,8 +11,10 @@
     O <i> <dsl text ...>                              | h=<bits> s=<bits>          (oracle: value of atom i per target)
     R <id> <src> <tgt> <name> <for> <fk> <fv> <bodyhost> [a=<expr>].. [i=<expr>].. [u=<name,..>]..
         the a= / i= tokens are the `assign where` / `ignore where` statements of the rule body, in source order
-    L <concs> [q][x]                                  | p1=<res> w1=<res> [p16=<res> w16=<res>] [q1=<res>] [x1=<res>]
+    L <concs> [q][x] [late=<h>,<h>!<s>..]             | p1=<res> w1=<res> [p16=<res> w16=<res>] [q1=<res>] [x1=<res>] [l1=<res>]
+        l1: the named hosts (with their services) and services committed in a second stage, same process
         q1 / x1: the permuted text (rules reversed, statements inside each rule reversed, objects reversed) as written / wrapped
+    A <H|S> <expr> <fv> [p=<expr>]                    | ... pb=<bits>   (restricted ApiUser: truth of the permission filter per object)
     A <H|S> <expr> <fv>                               | fast=<ares> slow=<ares> dups=<n> nf=<n> ns=<n> qf=<cnt> qs=<cnt> af=<cnt> as=<cnt>
         nf/ns: entries GetFilterTargets returned (-1: raised); qf/qs, af/as: entries of `results` of GET /v1/objects/<type> and
         POST /v1/actions/reschedule-check through HttpHandler::ProcessRequest (e<status>: status other than 200)
@@ -196,6 +198,14 @@ structure DSt where
   permModelDiffers : Nat := 0
   rulesInterleaved : Nat := 0
   rulesMultiStmt : Nat := 0
+  lateRuns : Nat := 0
+  lateOnlyRules : Nat := 0
+  lateOnlyIndexed : Nat := 0
+  leakCases : Nat := 0
+  leakReads : Nat := 0
+  apiPerm : Nat := 0
+  apiPermSkipped : Nat := 0
+  apiPermDeniedNamed : Nat := 0
   evals : Nat := 0
   mismatches : Nat := 0
   specfails : Nat := 0
@@ -343,7 +353,25 @@ def assignAfterIgnore : List Stmt → Bool
 
 /-! ### the `L` line -/
 
-def handleL (d : DSt) (n : Nat) (post : List String) : IO DSt := do
+/-- the variables an expression reads -/
+def exprVars : Expr → List String
+  | .var x => [x]
+  | .idx a b | .eq a b | .ne a b | .and a b | .or a b => exprVars a ++ exprVars b
+  | .not a => exprVars a
+  | _ => []
+
+def parseLate (pre : List String) : Option Late :=
+  match kvOf pre "late" with
+  | none => some ⟨[], []⟩
+  | some v =>
+    let toks := splitC v
+    let hs := toks.filter fun t => !t.contains '!'
+    let ss := toks.filterMap fun t => match t.splitOn "!" with
+      | [h, sv] => some (h, sv)
+      | _ => none
+    if toks.isEmpty || hs.length + ss.length != toks.length then none else some ⟨hs, ss⟩
+
+def handleL (d : DSt) (n : Nat) (pre post : List String) : IO DSt := do
   let w := world d
   let inv := inventory d
   let rules : Rules := d.rules.map fun rr => (rr.id, rr.rule)
@@ -405,6 +433,29 @@ def handleL (d : DSt) (n : Nat) (post : List String) : IO DSt := do
                   permModelDiffers := d.permModelDiffers + (if sPermIdx != sIdx || sPermPlain != sPlain then 1 else 0) }
   d ← check d "q1" "load_perm" sPermIdx
   d ← check d "x1" "load_permwrap" sPermPlain
+  -- the same configuration committed in two stages
+  let late? := parseLate pre
+  if late?.isNone then return (← bad d n)
+  let late := late?.getD ⟨[], []⟩
+  if (kvOf post "l1").isSome then
+    let firstStage := indexedFullOutcomes w rules (earlyInv inv late)
+    let secondStage := indexedFullOutcomes w rules (lateInv inv late)
+    let createdBy (os : List Outcome) (id : Nat) : Bool := os.any fun o => match o with
+      | .create c => c.rule == id
+      | _ => false
+    -- rules without any match in the first stage that create an object in the second
+    let lateOnly := d.rules.filter fun rr => !createdBy firstStage rr.id && createdBy secondStage rr.id
+    d := { d with lateRuns := d.lateRuns + 1, lateOnlyRules := d.lateOnlyRules + lateOnly.length,
+                  lateOnlyIndexed := d.lateOnlyIndexed + (lateOnly.filter fun rr => (targetedNames rr.rule).isSome).length }
+    d ← check d "l1" "load_staged" (showLoad d (indexedStaged w rules inv late))
+  -- a global constant that shares its name with a loop / closure variable of a rule, and the rules that read it
+  let localNames := d.rules.flatMap fun rr => [rr.rule.fkvar, rr.rule.fvvar] ++ rr.rule.scope.map (·.1)
+  let shared := (d.consts.map (·.1)).filter fun c => c != "" && localNames.contains c
+  if !shared.isEmpty then
+    let reads := d.rules.filter fun rr =>
+      ((rr.rule.assign ++ rr.rule.ignore).flatMap exprVars).any fun x =>
+        shared.contains x && x != rr.rule.fkvar && x != rr.rule.fvvar && !(rr.rule.scope.map (·.1)).contains x
+    d := { d with leakCases := d.leakCases + 1, leakReads := d.leakReads + reads.length }
   -- the specification on the implementation's observations
   match (kvOf post "p1").bind parseObs, (kvOf post "w1").bind parseObs with
   | some p1, some w1 =>
@@ -414,7 +465,9 @@ def handleL (d : DSt) (n : Nat) (post : List String) : IO DSt := do
     let q1 := (kvOf post "q1").bind parseObs
     let x1 := (kvOf post "x1").bind parseObs
     if (kvOf post "q1").isSome && q1.isNone || (kvOf post "x1").isSome && x1.isNone then return (← bad d n)
-    let obs : LoadObs := { plain1 := p1, wrap1 := w1, plain16 := p16, wrap16 := w16, perm1 := q1, permWrap1 := x1 }
+    let l1 := (kvOf post "l1").bind parseObs
+    if (kvOf post "l1").isSome && l1.isNone then return (← bad d n)
+    let obs : LoadObs := { plain1 := p1, wrap1 := w1, plain16 := p16, wrap16 := w16, perm1 := q1, permWrap1 := x1, late1 := l1 }
     if (expectedObjs w rules inv).isNone then d := { d with specSilent := d.specSilent + 1 }
     match specLoad w rules inv (fun exp => selfDependency depParent exp || dupNames exp) obs with
     | some cl =>
@@ -455,21 +508,48 @@ def showCounts (c : ApiCounts) : String :=
 
 def handleA (d : DSt) (n : Nat) (pre post : List String) : IO DSt := do
   match pre with
-  | [_, tyS, exprS, fvS] =>
+  | _ :: tyS :: exprS :: fvS :: permToks =>
     let fv? : Option (Option (List (String × Val))) := if fvS == "-" then some none else (parseKVs fvS).map some
+    -- p=<expr>: the ApiUser's permission filter; which objects it admits is the oracle input pb=<bits>
+    let permOk := match permToks with
+      | [] => true
+      | [t] => t.startsWith "p=" && (parseExpr (t.drop 2).toString).isSome && (kvOf post "pb").isSome
+      | _ => false
+    if !permOk then return (← bad d n)
     match parseTgt tyS, parseExpr exprS, fv?, kvOf post "fast", kvOf post "slow" with
     | some ty, some e, some fv, some ifast, some islow =>
       let w := world d
-      let inv := inventory d
-      let mfast := apiTargets w fv ty e inv
-      let mslow := apiSlow w fv ty e inv
+      let inv0 := inventory d
+      let restricted := !permToks.isEmpty
+      let bits := ((kvOf post "pb").getD "-").toList
+      let nT := (targets inv0 ty).length
+      if restricted && !(bits == ['-'] && nT == 0 || bits.length == nT && bits.all fun c => c == '0' || c == '1' || c == 'E') then
+        return (← bad d n)
+      -- `E`: the permission filter raises on that object (`perm t = none`)
+      let permRaises := restricted && bits.contains 'E'
+      let permO : Val → Option Bool := fun t =>
+        match indexOf? (targets inv0 ty) t with
+        | some k => (match bits[k]? with | some '1' => some true | some '0' => some false | _ => none)
+        | none => some false
+      let perm : Val → Bool := fun t => !restricted || permO t == some true
+      let mfast := if restricted then apiTargetsP w fv ty e inv0 permO else apiTargets w fv ty e inv0
+      let mslow := if restricted then apiSlowP w fv ty e inv0 permO else apiSlow w fv ty e inv0
+      -- the inventory the query ranges over: the objects the permission filter admits (`specApiPerm`)
+      let inv := if restricted then restrictInv inv0 perm else inv0
       let recognised := match ty with
         | .host => (getTargetHosts (apiConsts fv) e).isSome
         | .service => (getTargetServices (apiConsts fv) e).isSome
       let dups := ((kvOf post "dups").bind String.toNat?).getD 0
       let collide := fvarsCollide w ty fv
       let collideNav := (fv.getD []).any fun p => (w.navNames ty).contains p.1
+      let deniedNamed := restricted && ((apiTargets w fv ty e inv0).getD []).any (fun t => !perm t) &&
+        (match ty with
+         | .host => (getTargetHosts (apiConsts fv) e).isSome
+         | .service => (getTargetServices (apiConsts fv) e).isSome) && !fvarsCollide w ty fv
       let mut d := { d with steps := d.steps + 1, api := d.api + 1, apiDups := d.apiDups + (if dups > 0 then 1 else 0),
+                            apiPerm := d.apiPerm + (if restricted then 1 else 0),
+                            apiPermSkipped := d.apiPermSkipped + (if permRaises then 1 else 0),
+                            apiPermDeniedNamed := d.apiPermDeniedNamed + (if deniedNamed then 1 else 0),
                             apiFast := d.apiFast + (if recognised then 1 else 0),
                             evals := d.evals + (targets inv ty).length,
                             apiCollide := d.apiCollide + (if collide then 1 else 0),
@@ -478,7 +558,8 @@ def handleA (d : DSt) (n : Nat) (pre post : List String) : IO DSt := do
       if recognised && (mfast.map (·.length)).getD 0 > 0 then
         d := { d with apiFastNonEmpty := d.apiFastNonEmpty + 1, caseNontrivial := true }
       if mslow.isNone then d := { d with apiErr := d.apiErr + 1 }
-      if showApi mfast != showApi mslow then d := { d with apiDiverge := d.apiDiverge + 1 }
+      -- proved equal as sets (api_fast_path_eq_plain, api_permission_fast_path_partial) unless the permission filter raises (F-C16e)
+      if showApi mfast != showApi mslow && !permRaises then d := { d with apiDiverge := d.apiDiverge + 1 }
       if ifast != showApi mfast then
         IO.println s!"MISMATCH line={n} case={d.caseNo} what=api_fast impl={ifast} model={showApi mfast}"
         d := { d with mismatches := d.mismatches + 1 }
@@ -523,13 +604,18 @@ def handleA (d : DSt) (n : Nat) (pre post : List String) : IO DSt := do
       | none => pure ()
       match parseApi ty ifast, parseApi ty islow with
       | some f, some s =>
-        match specApi w fv ty e inv { fast := f, slow := s, counts := counts? } with
+        let ao : ApiObs := { fast := f, slow := s, counts := counts? }
+        match (if restricted then specApiPerm w fv ty e inv0 permO ao else specApi w fv ty e inv ao) with
         | some cl =>
+          -- F-C16e: the permission filter raises on an object; evaluation fails, the fast path did not look at that object -
+          -- exactly as the model says, or in some other way
+          let shapeP := if cl == .apiFastpathIndependent && permRaises then
+              (if ifast == showApi mfast && islow == showApi mslow then " shape=perm_raises" else " shape=other") else ""
           -- F-C16d: the multiplicity clause fails exactly as the model (one entry per disjunct that names an existing
           -- object) says, or in some other way
           let shape := if cl == .apiMultiplicityIndependent then
               (if counts? == some mc then " shape=per_disjunct" else " shape=other") else ""
-          IO.println s!"SPECFAIL line={n} case={d.caseNo} clause={cl.name}{shape}"
+          IO.println s!"SPECFAIL line={n} case={d.caseNo} clause={cl.name}{shape}{shapeP}"
           d := { d with specfails := d.specfails + 1 }
         | none => pure ()
         return d
@@ -632,7 +718,7 @@ def handle (d : DSt) (n : Nat) (line : String) : IO DSt := do
         | _, _ => bad d n
       | _, _, _ => bad d n
     | "R" :: _ => handleR d n ws
-    | "L" :: _ => handleL d n post
+    | "L" :: _ => handleL d n ws post
     | "A" :: _ => handleA d n ws post
     | _ => bad d n
 
@@ -640,4 +726,4 @@ def main : IO Unit := do
   let stdin ← IO.getStdin
   let d ← foldLines stdin handle ({} : DSt)
   let d := closeCase d
-  IO.println s!"STATS cases={d.caseNo} steps={d.steps} loads={d.loads} load_runs={d.loadRuns} evaluations={d.evals} rules_targeted={d.rulesTargeted} rules_regular={d.rulesRegular} rules_for={d.rulesFor} rules_ignore={d.rulesIgnore} rules_loopvar_shadow={d.rulesShadow} created={d.createdIndexed} created_by_index={d.createdByIndex} rejected_indexed={d.rejIndexed} rejected_plain={d.rejPlain} model_index_vs_plain_diverge={d.diverge} spec_silent={d.specSilent} cascade_cases={d.cascade} cascade_services={d.cascadeCreated} rules_use={d.rulesUse} bound_checked={d.boundChecked} nav_names_differ_from_default={d.navDiffers} api_collide={d.apiCollide} api_collide_nav={d.apiCollideNav} api_collide_recognised={d.apiCollideRecognised} api={d.api} api_recognised={d.apiFast} api_fast_nonempty={d.apiFastNonEmpty} api_dups={d.apiDups} api_err={d.apiErr} api_model_diverge={d.apiDiverge} api_counts={d.apiCounts} api_http_unavailable={d.apiHttpDown} api_model_fast_multiplicity_differs={d.apiMultFast} perm_runs={d.permRuns} perm_model_differs={d.permModelDiffers} rules_multi_stmt={d.rulesMultiStmt} rules_assign_after_ignore={d.rulesInterleaved} nontrivial={d.nontrivial} mismatches={d.mismatches} specfails={d.specfails} badlines={d.badlines}"
+  IO.println s!"STATS cases={d.caseNo} steps={d.steps} loads={d.loads} load_runs={d.loadRuns} evaluations={d.evals} rules_targeted={d.rulesTargeted} rules_regular={d.rulesRegular} rules_for={d.rulesFor} rules_ignore={d.rulesIgnore} rules_loopvar_shadow={d.rulesShadow} created={d.createdIndexed} created_by_index={d.createdByIndex} rejected_indexed={d.rejIndexed} rejected_plain={d.rejPlain} model_index_vs_plain_diverge={d.diverge} spec_silent={d.specSilent} cascade_cases={d.cascade} cascade_services={d.cascadeCreated} rules_use={d.rulesUse} bound_checked={d.boundChecked} nav_names_differ_from_default={d.navDiffers} api_collide={d.apiCollide} api_collide_nav={d.apiCollideNav} api_collide_recognised={d.apiCollideRecognised} api={d.api} api_recognised={d.apiFast} api_fast_nonempty={d.apiFastNonEmpty} api_dups={d.apiDups} api_err={d.apiErr} api_model_diverge={d.apiDiverge} api_counts={d.apiCounts} api_http_unavailable={d.apiHttpDown} api_model_fast_multiplicity_differs={d.apiMultFast} perm_runs={d.permRuns} perm_model_differs={d.permModelDiffers} rules_multi_stmt={d.rulesMultiStmt} rules_assign_after_ignore={d.rulesInterleaved} late_runs={d.lateRuns} late_only_rules={d.lateOnlyRules} late_only_indexed_rules={d.lateOnlyIndexed} shared_name_cases={d.leakCases} shared_name_reads={d.leakReads} api_perm={d.apiPerm} api_perm_raises={d.apiPermSkipped} api_perm_denied_named={d.apiPermDeniedNamed} nontrivial={d.nontrivial} mismatches={d.mismatches} specfails={d.specfails} badlines={d.badlines}"
